@@ -258,6 +258,11 @@ class Server:
             self._onboard_thread.join()
         self.servlet.stop()
         self._gather_thread.join()
+        # Results overtaken by the stop sentinel are never gathered; do not carry
+        # their ledger entries into the next `__enter__`.
+        for fut in self._uid_to_futures.values():
+            fut.cancel()
+        self._uid_to_futures.clear()
 
     def call(self, x, /, *, timeout: int | float = 60, backpressure: bool = True):
         """
@@ -532,6 +537,11 @@ class AsyncServer:
             self._onboard_thread.join()
         self.servlet.stop()
         self._gather_thread.join()
+        # Results overtaken by the stop sentinel are never gathered; do not carry
+        # their ledger entries into the next `__aenter__`.
+        for fut in self._uid_to_futures.values():
+            fut.cancel()
+        self._uid_to_futures.clear()
 
         pipenotfull = self._pipeline_notfull
         notifs = self._pipeline_notfull_notifications
